@@ -135,12 +135,15 @@ impl AdditionalLifecycleEventsSet {
         &&& forall|s: S| #[trigger] s.reregister_req()
         &&& forall|s: S| #[trigger] s.unregister_req()
     }
-    // the witnesses carry no information about a concrete dispatcher (they are abstract for every caller)
-    open spec fn w_registered(&self, t: RegistrationToken) -> bool { true }
-    open spec fn w_reregistered(&self, t: RegistrationToken) -> bool { true }
+    // For this implementor the outcome witnesses mean: the wrapped source's own register / reregister / unregister HAS
+    // returned Ok (for an arbitrary `S` its `*_ens` predicates are uninterpreted, so such a fact can only come from the
+    // postcondition of a real call), resp. the dispatcher's RefCell WAS found borrowed. So `Ok(true)` cannot be returned
+    // without the call having succeeded, nor `Ok(false)` without the borrow having failed.
+    open spec fn w_registered(&self, t: RegistrationToken) -> bool { exists|o: S, n: S| #[trigger] S::register_ens(&o, &n, true) }
+    open spec fn w_reregistered(&self, t: RegistrationToken) -> bool { exists|o: S, n: S| #[trigger] S::reregister_ens(&o, &n, true) }
     open spec fn w_unregister_called(&self, t: RegistrationToken) -> bool { true }
-    open spec fn w_unregistered(&self, t: RegistrationToken) -> bool { true }
-    open spec fn w_deferred(&self) -> bool { true }
+    open spec fn w_unregistered(&self, t: RegistrationToken) -> bool { exists|o: S, n: S| #[trigger] S::unregister_ens(&o, &n, true) }
+    open spec fn w_deferred(&self) -> bool { crate::ext::w_borrow_failed(self) }
     open spec fn w_processed(&self, readiness: Readiness, token: Token) -> bool { true }
     open spec fn w_before_sleep(&self) -> bool { true }
     open spec fn w_synthetic(&self, readiness: Readiness, token: Token) -> bool { true }
